@@ -617,3 +617,61 @@ def run_error_case(case):
             r[how] = o
         out['res'].append(r)
     return out
+
+
+NODEINFO_CONFIGS = [('default', {}), ('memo-off', {'memoization': False}), ('plm-0.01', {'perlinememos': 0.01}), ('plm-1', {'perlinememos': 1}),
+                    ('noprune', {'prune_memos_on_cut': False}), ('plm-2-noprune', {'perlinememos': 2, 'prune_memos_on_cut': False})]
+
+
+def nodeinfo(x, depth=0):
+    """A parse result with object-model nodes, projected with the parse information of every node and dict-like AST."""
+    from tatsu.objectmodel import Node
+    if depth > 40:
+        return '...'
+    if isinstance(x, Node):
+        pi = x.parseinfo
+        me = [pi.rule if isinstance(pi.rule, str) else type(pi.rule).__name__, pi.pos, pi.endpos] if pi is not None else None
+        attrs = {k: nodeinfo(v, depth + 1) for k, v in vars(x).items() if not k.startswith('_') and k not in ('parseinfo', 'ctx', 'comments')}
+        return {'__node__': type(x).__name__, '__pi__': me, **attrs}
+    if isinstance(x, dict):
+        pi = x.get('parseinfo') if not isinstance(x.get('parseinfo'), (str, list, dict)) else None
+        me = [pi.rule if isinstance(pi.rule, str) else type(pi.rule).__name__, pi.pos, pi.endpos] if pi is not None else None
+        return {'__pi__': me, **{k: nodeinfo(v, depth + 1) for k, v in x.items() if k not in ('parseinfo', '__parseinfo__')}}
+    if isinstance(x, (list, tuple)):
+        return [nodeinfo(v, depth + 1) for v in x]
+    return x if isinstance(x, (str, int, float, bool, type(None))) else repr(x)[:40]
+
+
+def run_nodeinfo_case(case):
+    """Object-model parses with parse information under the memo configurations: -> {'compile':..., 'res': [{config: outcome} per text]}"""
+    sys.setrecursionlimit(3000)
+    import tatsu
+    signal.signal(signal.SIGALRM, _alarm)
+    out = {'res': []}
+    clear_caches()
+    signal.alarm(20)
+    try:
+        model = tatsu.compile(case['ebnf'], asmodel=True)
+        out['compile'] = {'k': 'ok'}
+    except Exception as e:  # noqa: BLE001
+        out['compile'] = {'k': 'exc', 'cls': type(e).__name__, 'msg': str(e)[:300]}
+        return out
+    finally:
+        signal.alarm(0)
+    from tatsu.exceptions import FailedParse
+    for text in case['texts']:
+        r = {}
+        for name, st in NODEINFO_CONFIGS:
+            signal.alarm(10)
+            try:
+                with _Quiet():
+                    v = model.parse(text, start='start', parseinfo=True, **st)
+                r[name] = {'k': 'ok', 'v': nodeinfo(v)}
+            except FailedParse as e:
+                r[name] = {'k': 'fail', 'cls': type(e).__name__}
+            except Exception as e:  # noqa: BLE001
+                r[name] = {'k': 'exc', 'cls': type(e).__name__, 'msg': str(e)[:200]}
+            finally:
+                signal.alarm(0)
+        out['res'].append(r)
+    return out
